@@ -52,7 +52,8 @@ def rand_meta(rng, depth):
     def tree(d):
         out = {}
         for _ in range(rng.randint(0, 3)):
-            k = rng.choice(["k", "note", "ünï", "α β", "n", "arr", "f", "sub", "type", "q" * 40, "x.y"])
+            k = rng.choice(["k", "note", "ünï", "α β", "n", "arr", "f", "sub", "type", "q" * 40, "x.y", "input_type",
+                            "output_type", "weight", "shape", "nodes", "edges"])
             r = rng.random()
             if r < 0.2:
                 out[k] = rng.choice(["", "text", "日本語", "a\nb", "same"])
@@ -130,6 +131,8 @@ def rand_leaf(rng):
             args = {k: (np.array(v) if not isinstance(v, np.ndarray) else v) for k, v in args.items()}
     else:  # Flatten
         sh = [rng.randint(1, 4) for _ in range(rng.randint(1, 4))]
+        if rng.random() < 0.35:      # extents whose product leaves the range of a narrow integer dtype
+            sh = [rng.choice([8, 16, 12, 4, 32]) for _ in range(rng.randint(2, 3))]
         a = rng.randrange(len(sh)); b = rng.randrange(a, len(sh))
         form = rng.choice(["dict", "nd", "list", "tuple"])
         it = {"dict": {"input": np.array(sh)}, "nd": np.array(sh), "list": list(sh), "tuple": tuple(sh)}[form]
@@ -141,9 +144,11 @@ def rand_leaf(rng):
     return {"k": kind, "args": args}
 
 
-def serial_graph(rng, depth=2, max_nodes=7, bad_names=False):
+def serial_graph(rng, depth=2, max_nodes=7, bad_names=False, shared=False):
     names = NAME_POOL[:]
     rng.shuffle(names)
+    if rng.random() < 0.25:
+        names.append(rng.choice(["lif ", " ", "sub .ü  ", " lead"]))    # popped first
     n = rng.randint(0, max_nodes)
     nodes = {}
     for _ in range(n):
@@ -154,6 +159,10 @@ def serial_graph(rng, depth=2, max_nodes=7, bad_names=False):
             nodes[nm] = serial_graph(rng, depth - 1, max_nodes=3)
         else:
             nodes[nm] = rand_leaf(rng)
+    if shared and nodes and rng.random() < 0.5:
+        src = rng.choice(list(nodes))
+        if nodes[src]["k"] != "__alias__":
+            nodes[(names.pop() if names else "tied") + "~"] = {"k": "__alias__", "of": src}
     keys = list(nodes)
     edges = []
     for _ in range(rng.randint(0, 2 * len(keys) + 1)):
@@ -168,6 +177,10 @@ def serial_graph(rng, depth=2, max_nodes=7, bad_names=False):
         edges.append((a, b))
         if rng.random() < 0.1:
             edges.append((a, b))
+    for k in keys:                      # names with leading / trailing blanks must occur as edge endpoints
+        if k != k.strip() and rng.random() < 0.7:
+            edges.append((k, rng.choice(keys)))
+            edges.append((rng.choice(keys), k))
     g = {"k": "NIRGraph", "nodes": nodes, "edges": edges}
     md = rand_meta(rng, 2)
     if md is not None:
